@@ -187,7 +187,8 @@ AdvanceMonth(S, c) == LET R == AdvanceMonth0(S, c) IN
 \* RewardProvidersAndDelegators: the amount becomes claimable (obligation) and moves to the dualstaking account;
 \* nothing happens for a provider without metadata (unstaked everywhere)
 Reward(S, p, from, amt) ==
-  IF amt <= 0 \/ ~HasMeta(S, p) THEN S ELSE Owe(Move(S, from, "ds", amt), "ds", amt)
+  IF amt <= 0 \/ ~HasMeta(S, p) \/ S.bank[from] < amt THEN S
+  ELSE [Owe(Move(S, from, "ds", amt), "ds", amt) EXCEPT !.rewd[p] = @ + amt]
 \* ContributeToValidatorsAndCommunityPool: 5% validators, 2% community (default params), rest is the reward
 Tax(S, from, amt) ==
   LET v == (amt * 5) \div 100  cm == (amt * 2) \div 100 IN
@@ -431,7 +432,9 @@ Cands(S, k) ==
     [] k = "DsUnbond" -> {x \in {[a |-> "DsUnbond", del |-> d, prov |-> p, val |-> v, amt |-> am] :
                                    d \in Delegators, p \in Providers, v \in Validators, am \in Amts} :
                             S.dlg[x.del][x.prov] >= x.amt /\ S.vdl[x.del][x.val] >= x.amt}
-    [] k = "DsClaim" -> {[a |-> "DsClaim", who |-> w, prov |-> p] : w \in Delegators \cup Providers, p \in Providers \cup {""}}
+    [] k = "DsClaim" -> {[a |-> "DsClaim", who |-> w, prov |-> ""] : w \in Delegators}
+                         \cup {x \in {[a |-> "DsClaim", who |-> w, prov |-> p] : w \in Providers, p \in Providers \cup {""}} :
+                                 S.rewd[x.who] > 0 /\ x.prov \in {x.who, ""}}
     [] k = "ValDelegate" -> {[a |-> "ValDelegate", del |-> d, val |-> v, amt |-> am] : d \in Delegators, v \in Validators, am \in Amts}
     [] k = "ValUndelegate" -> {x \in {[a |-> "ValUndelegate", del |-> d, val |-> v, amt |-> am] :
                                         d \in Delegators, v \in Validators, am \in Amts} :
@@ -539,9 +542,10 @@ ApplyTx(S, x) ==
     [] x.a = "DsUnbond" ->
          Refreeze([Unbonding(S, x.del, x.val, x.amt) EXCEPT !.vdl[x.del][x.val] = @ - x.amt, !.dlg[x.del][x.prov] = @ - x.amt], x.prov)
     [] x.a = "DsClaim" ->
-         \* abstract: the claimant receives an arbitrary share of what is claimable; here: everything or nothing
-         \* (the bank and the obligation move together in every case)
-         IF x.prov = "" THEN Move([S EXCEPT !.obl.ds = 0], "ds", "users", S.obl.ds) ELSE S
+         \* abstract: all of a provider's reward is claimable by its vault (the delegators' shares are not split off)
+         IF x.who \in Providers /\ x.prov \in {x.who, ""} /\ S.rewd[x.who] > 0
+         THEN [Move([S EXCEPT !.obl.ds = @ - S.rewd[x.who]], "ds", "users", S.rewd[x.who]) EXCEPT !.rewd[x.who] = 0]
+         ELSE S
     [] x.a = "ValDelegate" ->
          [Move(S, "users", "bonded", x.amt) EXCEPT !.vdl[x.del][x.val] = @ + x.amt, !.dlg[x.del]["empty"] = @ + x.amt]
     [] x.a = "ValUndelegate" ->
@@ -610,6 +614,7 @@ InitState ==
    dlg |-> [d \in Delegators |-> [p \in Providers \cup {"empty"} |-> 0]],
    vdl |-> [w \in Stakers |-> [v \in Validators |-> IF w \in {"P1", "P2"} /\ v = "VA1" THEN 5000 ELSE 0]],
    valself |-> [v \in Validators |-> 10000000],
+   rewd |-> [p \in Providers |-> 0],
    unb |-> {}, red |-> {}, seq |-> 0, lastMove |-> [p \in Providers |-> 0],
    ip |-> [on |-> FALSE, cost |-> 0, subs |-> {}, cur |-> 0, funds |-> {}],
    refillAt |-> NextMonth(DAY + 3661), monthsLeft |-> 47,
@@ -626,7 +631,7 @@ InitState ==
 N1(f) == f @@ <<>>
 N2(f) == N1([x \in DOMAIN f |-> N1(f[x])])
 NormState(S) == [S EXCEPT !.plans = N2(@), !.subs = N1(@), !.prov = N2(@), !.dlg = N2(@), !.vdl = N2(@),
-                          !.valself = N1(@), !.lastMove = N1(@), !.proj = N1(@), !.bank = N1(@)]
+                          !.valself = N1(@), !.rewd = N1(@), !.lastMove = N1(@), !.proj = N1(@), !.bank = N1(@)]
 
 Init == st = NormState(InitState) /\ nops = 0 /\ hist = <<>>
 
